@@ -3,6 +3,7 @@
 
 mod api;
 mod attack;
+mod fuzz;
 mod gen;
 mod history;
 mod jt;
@@ -72,6 +73,7 @@ fn main() {
             }
             threads::run(&mut ctx, &cfgs)
         }
+        "fuzz" => fuzz::run(&mut ctx, &out, num("n", 20) as usize, num("seed", 1)),
         "history" => history::run(&mut ctx, &history::HistOpts { scn: get("scn", ""), limit: num("n", 1_000_000) as usize, random: num("random", 0) as usize, seed: num("seed", 1) }),
         "replay" => replay::run(&mut ctx, &replay::ReplayOpts { scn: get("scn", "scn.ndjson"), limit: num("n", 1_000_000) as usize, matrix: get("matrix", "1") == "1", seed: num("seed", 1) }),
         d => {
